@@ -15,6 +15,12 @@ Definition b64_header_prefix : list N :=
   [98; 101; 103; 105; 110; 45; 98; 97; 115; 101; 54; 52; 32]%N.
 Definition uu_header_prefix : list N :=
   [98; 101; 103; 105; 110; 32]%N.
+Definition b64_mode_fixed3 : bool := false.
+Definition uu_mode_fixed3 : bool := false.
+Definition b64_name_printable_only : bool := false.
+Definition uu_name_printable_only : bool := false.
+Definition rd_uu_bid_empty_fix : bool := false.
+Definition rd_b64_bid_empty_fix : bool := false.
 Definition b64_trailer : list N :=
   [61; 61; 61; 61; 10]%N.
 Definition uu_trailer : list N :=
@@ -86,7 +92,7 @@ Definition rd_base64 : list N :=
 Definition rd_base64num : list N :=
   [0; 0; 0; 0; 0; 0; 0; 0; 0; 0; 0; 0; 0; 0; 0; 0;
    0; 0; 0; 0; 0; 0; 0; 0; 0; 0; 0; 0; 0; 0; 0; 0;
-   0; 0; 0; 0; 0; 0; 0; 0; 0; 0; 0; 61; 0; 0; 0; 63;
+   0; 0; 0; 0; 0; 0; 0; 0; 0; 0; 0; 62; 0; 0; 0; 63;
    52; 53; 54; 55; 56; 57; 58; 59; 60; 61; 0; 0; 0; 0; 0; 0;
    0; 0; 1; 2; 3; 4; 5; 6; 7; 8; 9; 10; 11; 12; 13; 14;
    15; 16; 17; 18; 19; 20; 21; 22; 23; 24; 25; 0; 0; 0; 0; 0;
